@@ -23,7 +23,7 @@ ASSUMPTIONS = ["Thompson-entropy tables are random: only the table-level arg-max
                "ties within 1e-12 are accepted in any order"]
 N = {"quick": 150, "thorough": 5000}
 REQUIRE = {"quick": {"evaluations_observed": 1500, "tables_checked": 800, "rule_values_checked": 1500, "data_delta_checked": 600,
-                     "direct_joint_calls": 300, "direct_decoupled_calls": 300, "bandit_rounds": 100, "tie_tables": 100}}
+                     "direct_joint_calls": 300, "direct_decoupled_calls": 300, "bandit_rounds": 100, "tie_tables": 100, "ad_sample_steps": 10, "ad_refine_steps": 10}}
 TIMEOUT = {"quick": 1500, "thorough": 7200}
 ALL = ["PaVeBa", "PaVeBaGP-IH", "PaVeBaGP-DE", "PartialGP-rect", "PartialGP-ell", "VOGP", "EpsilonPAL", "Auer", "DecoupledGP", "VOGP", "PartialGP-rect"]
 
@@ -126,8 +126,20 @@ def make(rng, variant):
     return case, order
 
 
+def ad_run(mon, rng):
+    case, order = runs.make_ad_case(rng)
+    case["max_rounds"] = 60
+    tr = runs.run_ad_case(case, order, mon)
+    mon.count("vogp_ad_runs")
+    for st in tr.steps:
+        if st["crash"] is None and not st.get("after_completion"):
+            runchecks.check_acquisition_ad(mon, tr, st)
+
+
 def shard(mon, tier, rng, shard_no, nshards):
     n = max(len(ALL), N[tier] // nshards)
+    for _ in range(2 if tier == "quick" else 8):
+        ad_run(mon, rng)
     for it in range(n):
         variant = ALL[(it + shard_no) % len(ALL)]
         case, order = make(rng, variant)
@@ -156,6 +168,13 @@ def replay(mon, rec):
         for st in tr.steps:
             if st["crash"] is None:
                 runchecks.check_acquisition(mon, tr, st)
+    if rec["case"].get("variant") == "VOGP_AD":
+        def chk_ad(mon, tr):
+            for st in tr.steps:
+                if st["crash"] is None and not st.get("after_completion"):
+                    runchecks.check_acquisition_ad(mon, tr, st)
+        runs.replay_runs(mon, rec, chk_ad)
+        return
     if "variant" not in rec["case"]:
         print("direct optimiser case:", rec["case"])
         return
